@@ -188,13 +188,24 @@ func setModes(f *mp4.File, boxTree, opt bool) {
 }
 
 // EncodeSW encodes through the SliceWriter path into a buffer of exactly size bytes (size<0: Size()).
+// DirtySW returns a fixed slice writer over a caller-provided buffer of n bytes that is NOT zeroed (as a buffer
+// taken from a pool would be): an encoder that relies on the buffer's previous content shows up as a difference
+// from the io.Writer path.
+func DirtySW(n int) *bits.FixedSliceWriter {
+	buf := make([]byte, n)
+	for i := range buf {
+		buf[i] = 0xa5
+	}
+	return bits.NewFixedSliceWriterFromSlice(buf)
+}
+
 func EncodeSW(d Decoded, boxTree bool, opt bool, size int) ([]byte, error) {
 	if d.File != nil {
 		setModes(d.File, boxTree, opt)
 		if size < 0 {
 			size = int(d.File.Size())
 		}
-		sw := bits.NewFixedSliceWriter(size)
+		sw := DirtySW(size)
 		err := d.File.EncodeSW(sw)
 		if err == nil {
 			err = sw.AccError()
@@ -204,7 +215,7 @@ func EncodeSW(d Decoded, boxTree bool, opt bool, size int) ([]byte, error) {
 	if size < 0 {
 		size = int(d.Box.Size())
 	}
-	sw := bits.NewFixedSliceWriter(size)
+	sw := DirtySW(size)
 	err := d.Box.EncodeSW(sw)
 	if err == nil {
 		err = sw.AccError()
